@@ -26,8 +26,11 @@ def _ranges(d):
 
 
 def _via_parser(d):
-    """the tolerant parser with a strict grammar: what pvl.loads(text, grammar=G()) builds"""
-    import pvl.parser as P, pvl.grammar as G
+    """the tolerant parser with a strict grammar: what pvl.loads(text, grammar=G()) - or, for "dec:<d>", what
+    pvl.loads(text, decoder=D()) - builds"""
+    import pvl.parser as P, pvl.grammar as G, pvl.decoder as D
+    if d.startswith("dec:"):
+        return P.OmniParser(decoder={"PVL": D.PVLDecoder, "ODL": D.ODLDecoder, "PDS3": D.PDSLabelDecoder}[d[4:]]())
     return P.OmniParser(grammar={"PVL": G.PVLGrammar, "ODL": G.ODLGrammar, "PDS3": G.PDSGrammar}[d]())
 
 
@@ -38,7 +41,7 @@ def _load(job):
     ev = {"ev": "load", "d": d, "text": [ord(c) for c in text], "kind": obs["kind"], "type": obs.get("type", ""),
           "pos": -1, "lineno": -1, "colno": -1}
     if via:
-        ev["via"] = "loads(grammar=%sGrammar())" % via
+        ev["via"] = ("loads(decoder=%sDecoder())" % via[4:]) if via.startswith("dec:") else ("loads(grammar=%sGrammar())" % via)
     for k in ("pos", "lineno", "colno"):
         if isinstance(obs.get(k), int):
             ev[k] = obs[k]
@@ -78,6 +81,7 @@ def run(ctx, rep):
         # the strict grammars under the tolerant parser (pvl.loads(text, grammar=G())): the character set is the grammar's
         for d in ("PVL", "ODL", "PDS3"):
             jobs.append((d, text, d))
+            jobs.append((d, text, "dec:" + d))      # only a decoder given: the text is lexed with that decoder's grammar
     # ... also behind a repaired missing value, at top level and inside a block: the ISIS configuration, and the PVL grammar
     # under the tolerant parser, for which the reference dialect is ISIS (tolerant grammar, PVL character set)
     for cp in cps:
